@@ -98,6 +98,8 @@ static int apply(int li)
 		xp_outcome(0x100 + nf);
 	} else if (L->kind == L_R) {
 		plen = mk_reply(pkt, L->id);
+		if (L->v == 1) { plen = 12; pkt[3] = (pkt[3] & 0xf0) | 5; memset(pkt + 4, 0, 8); }      /* REFUSED, no sections */
+		if (L->v == 2) plen = 5;
 		adv_send_sock(adv_bind_sock, &LOCALDNS, RLEN, pkt, plen);
 		/* who may get it: entries with this id among the 16 most recent forwarded queries */
 		int cand[16], nc = 0;
@@ -117,7 +119,8 @@ static int apply(int li)
 		} else {
 			int distinct = 1; for (int k = 1; k < nc; k++) if (cand[k] != cand[0]) distinct = 0;
 			int ok = 0; for (int k = 0; k < nc; k++) if (cand[k] == delivered_to) ok = 1;
-			if (ndeliv != 1) viol("reply-not-relayed-once", "%s: %d of the 16 most recent forwarded queries have id %d but the reply was relayed %d times", L->name, nc, L->id, ndeliv);
+			if (L->v == 2 && ndeliv == 0) xp_count(K_REPLIES_DROPPED, 1);      /* a runt is no DNS reply: dropping it is fine, sending it elsewhere is not */
+			else if (ndeliv != 1) viol("reply-not-relayed-once", "%s: %d of the 16 most recent forwarded queries have id %d but the reply was relayed %d times", L->name, nc, L->id, ndeliv);
 			else if (!ok) viol("reply-sent-to-wrong-requester", "%s: asked by %s, relayed to %s", L->name, REQN[cand[0]], REQN[delivered_to]);
 			else { xp_count(K_REPLIES_ROUTED, 1); if (!distinct) xp_count(K_AMBIG, 1); }
 		}
@@ -202,6 +205,10 @@ int main(int argc, char **argv)
 	for (int r = 0; r < 3; r++) for (int id = 0; id < 4; id++) addl(L_Q, r, id, (r + id) & 1, "Q(%s,id%d,%s)", REQN[r], id, QN[(r + id) & 1].name);
 	for (int id = 0; id < 5; id++) addl(L_R, -1, id, 0, "R(id%d)", id);
 	addl(L_R, -1, 100, 0, "R(id100)"); addl(L_R, -1, 115, 0, "R(id115)");
+	/* replies that are only a header (REFUSED/FORMERR without the question: 12 bytes), and runts that do not even hold a header */
+	for (int id = 0; id < 3; id++) addl(L_R, -1, id, 1, "Rheader-only(id%d)", id);
+	addl(L_R, -1, 100, 1, "Rheader-only(id100)");
+	addl(L_R, -1, 0, 2, "Rrunt(5 bytes, id0)"); addl(L_R, -1, 2, 2, "Rrunt(5 bytes, id2)");
 	addl(L_T, 0, 0, 0, "T(tunnel-domain query)");
 	OPS.nletters = nlt; OPS.apply = apply; OPS.key = key; OPS.name = lname;
 	OPS.maxdepth = depth ? depth : a.thorough ? 7 : 5;
